@@ -9,7 +9,7 @@
    All statements are for arbitrary integers: no bound on sizes, weights or list lengths. *)
 From Coq Require Import ZArith List Bool Lia.
 Import ListNotations.
-From Urwid Require Import PyBase layout_gen Layout LayoutArith LayoutLists LayoutColumns LayoutOthers LayoutShares.
+From Urwid Require Import PyBase layout_gen Layout LayoutArith LayoutLists LayoutColumns LayoutOthers LayoutShares LayoutCache LayoutGrid LayoutPlace.
 Open Scope Z_scope.
 
 (* ================================================================== *)
@@ -278,6 +278,47 @@ Proof. intros l. split; [exact (sort_pairs_asc l)|exact (sort_pairs_perm l)]. Qe
 Print Assumptions sort_pairs_sorts.
 
 (* ================================================================== *)
+(* 4b. Columns as an object: the width cache is transparent             *)
+(* colstate / cs_step / cs_run (Model/Layout.v): the configuration plus _cache_maxcol and
+   _cache_column_widths; events: layout at a width, focus move (invalidates when the index
+   changes), a packed child changing its size (Columns is not told), contents[i] = ..., append,
+   del contents[-1] (all invalidate), the plain attributes dividechars / min_width (do NOT
+   invalidate), _invalidate().  ref_run is the same history with every layout recomputed from
+   the configuration then in force.  guarded ops: every attribute assignment is directly
+   followed by _invalidate().  The harness runs its multi-step histories through cs_run. *)
+Theorem cw_cache_transparent : forall cols div minw focus ops,
+  guarded ops = true ->
+  cs_run (cs_init cols div minw focus) ops = ref_run (cs_init cols div minw focus) ops.
+Proof. exact cs_run_transparent. Qed.
+Print Assumptions cw_cache_transparent.
+
+(* the reference is the stateless function of sections 4: every clause proved there holds for
+   every layout of every guarded history *)
+Theorem cw_reference_is_column_widths : forall cols div minw focus maxcol,
+  ref_run (cs_init cols div minw focus) [OLayout maxcol] =
+    [column_widths (map (resolve_col maxcol) cols) div minw focus maxcol].
+Proof. exact ref_layout_is_column_widths. Qed.
+Print Assumptions cw_reference_is_column_widths.
+
+(* one step: the invariant "a usable cache entry holds what the computation returns now" is kept
+   by every event the code's invalidation covers, and the step answers like the reference *)
+Theorem cw_cache_step : forall st st2 o,
+  cache_ok st -> same_cfg st st2 -> covered o = true ->
+  cache_ok (fst (cs_step st o)) /\ same_cfg (fst (cs_step st o)) (fst (ref_step st2 o)) /\
+  snd (cs_step st o) = snd (ref_step st2 o).
+Proof. exact cs_step_sound. Qed.
+Print Assumptions cw_cache_step.
+
+(* NOT covered by the code (observation reported to the lead, replayed on urwid.Columns):
+   given 3 | weight 1 | weight 1, lay out at 11, dividechars = 2, lay out at 11 again:
+   the stale [3;4;4] (15 > 11 columns with the dividers) instead of [3;2;2] *)
+Theorem cw_cache_attribute_assignment_refuted :
+  exists cols div minw focus ops,
+    cs_run (cs_init cols div minw focus) ops <> ref_run (cs_init cols div minw focus) ops.
+Proof. exact attribute_assignment_not_transparent. Qed.
+Print Assumptions cw_cache_attribute_assignment_refuted.
+
+(* ================================================================== *)
 (* 5. Pile.get_item_rows, box branch (hand model)                      *)
 (* pitem_ok : amounts >= 0 (a zero weight is allowed and gets no rows).
    fixed_sum : rows of the given and packed items.                                        *)
@@ -366,6 +407,45 @@ Theorem grid_row_fits_thm : forall maxcol hsep cells,
 Proof. exact grid_row_fits. Qed.
 Print Assumptions grid_row_fits_thm.
 
+(* GridFlow composed with its parts: every row of the display widget is a Padding (the translated
+   calculate_left_right_padding, width = what the row needs) around a Columns of GIVEN cells.
+   For every cell list: the row is placed inside maxcol (margins + row = maxcol) and its Columns
+   shows every cell of the row at its width -- nothing dropped, nothing cut off *)
+Theorem gridflow_rows_layout_thm : forall maxcol hsep al gfocus cells,
+  0 <= hsep -> Forall (fun w => 0 <= w) cells -> 0 <= maxcol ->
+  Forall (fun row =>
+            let '((l, r), inner) := gridflow_row_layout maxcol hsep al gfocus row in
+            0 <= l /\ 0 <= r /\ l + row_need hsep row + r = maxcol /\ inner = Ok (map snd row))
+         (gridflow_rows maxcol hsep cells).
+Proof. exact gridflow_rows_layout. Qed.
+Print Assumptions gridflow_rows_layout_thm.
+
+(* a Columns of GIVEN columns laid out in exactly the columns they need shows each at its width *)
+Theorem cw_all_given_exact_thm : forall div minw focus ws,
+  Forall (fun w => 0 <= w + div) ws ->
+  column_widths (givens ws) div minw focus (zsum ws + div * (zlen ws - 1)) = Ok ws.
+Proof. exact cw_all_given_exact. Qed.
+Print Assumptions cw_all_given_exact_thm.
+
+(* when all cells fit side by side there is one row *)
+Theorem grid_single_row_thm : forall maxcol hsep cells,
+  0 <= hsep -> Forall (fun w => 0 <= w) cells -> cells <> [] ->
+  zsum cells + hsep * (zlen cells - 1) <= maxcol ->
+  gridflow_rows maxcol hsep cells = [cells_tagged maxcol cells 0].
+Proof. exact grid_single_row. Qed.
+Print Assumptions grid_single_row_thm.
+
+(* GridFlow.pack(()): at its natural width n*cw + (n-1)*h_sep a GridFlow of n cells of the
+   configured width is a single row with every cell at that width *)
+Theorem grid_natural_width_thm : forall n cw hsep,
+  0 <= hsep -> 0 <= cw -> (0 < n)%nat ->
+  let cells := repeat cw n in
+  let natw := gridflow_natural_width (zlen cells) cw hsep in
+  gridflow_rows natw hsep cells = [cells_tagged natw cells 0] /\
+  Forall (fun p => snd p = cw) (cells_tagged natw cells 0).
+Proof. exact grid_natural_width_single_row. Qed.
+Print Assumptions grid_natural_width_thm.
+
 (* ================================================================== *)
 (* 7. Padding / Filler / Overlay (hand models around the translated functions) *)
 
@@ -439,6 +519,17 @@ Theorem overlay_box_thm : forall c maxcol maxrow pw ph (fr : Z -> Z) l r t b,
 Proof. exact overlay_box. Qed.
 Print Assumptions overlay_box_thm.
 
+(* Overlay.render: the visible part of top_w (trimmed where a margin is negative, placed at
+   (max(left,0), top)) lies inside the bottom canvas and, with the non-negative parts of the
+   margins, exactly fills it in both directions -- in all three modes, for every input *)
+Theorem overlay_placement_thm : forall c maxcol maxrow pw ph (fr : Z -> Z) l r t b,
+  p_wt (o_pad c) <> WClip ->
+  overlay_padding_filler c maxcol maxrow pw ph fr = Ok (l, r, t, b) ->
+  let '(x, y, w, h) := overlay_placement c maxcol maxrow pw ph fr l r t b in
+  0 <= x /\ 0 <= y /\ x + w + Z.max r 0 = maxcol /\ y + h + Z.max b 0 = maxrow.
+Proof. exact overlay_placement_fills. Qed.
+Print Assumptions overlay_placement_thm.
+
 (* ================================================================== *)
 (* 8. Non-vacuity: the models compute non-trivial things               *)
 
@@ -482,4 +573,19 @@ Proof. vm_compute. reflexivity. Qed.
 Example overlay_example :
   overlay_padding_filler (OvCfg (PadCfg ACenter 0 WRelative 50 None 0 0) (FillCfg VMiddle 0 WGiven 3 None 0 0)) 20 10 0 0 (fun _ => 0)
     = Ok (5, 5, 3, 4).
+Proof. vm_compute. reflexivity. Qed.
+
+(* a history on one Columns: lay out, move the focus onto a column that was cut off, lay out at
+   the same width (the cache was dropped), change nothing, lay out again (answered from the cache) *)
+Example cache_example :
+  cs_run (cs_init [((KGiven, 5), false); ((KWeight, 1), false); ((KGiven, 4), false)] 1 2 0)
+         [OLayout 7; OFocus 2; OLayout 7; OLayout 7] = [Ok [5]; Ok [0; 2; 4]; Ok [0; 2; 4]]
+  /\ guarded [OLayout 7; OFocus 2; OLayout 7; OLayout 7] = true.
+Proof. vm_compute. split; reflexivity. Qed.
+Example grid_row_layout_example :
+  gridflow_row_layout 10 1 ACenter 0 [(0, 3); (1, 3)] = ((1, 2), Ok [3; 3]).
+Proof. vm_compute. reflexivity. Qed.
+Example overlay_placement_example :
+  overlay_placement (OvCfg (PadCfg ARight 0 WPack 0 None 0 0) (FillCfg VTop 0 WPack 0 None 0 0)) 5 2 8 4 (fun _ => 0) (-3) 0 0 (-2)
+    = (0, 0, 5, 2).
 Proof. vm_compute. reflexivity. Qed.
